@@ -27,9 +27,9 @@ def c01():
                 [dict(universe=u, variant="extras", depth=7, simulate=25, emitidx=False, fan_keep=0.1) for u in U]
         hs, keys, modes = (0, 1), ("plain",), ("compiled",)
     else:
-        plans = [dict(universe=u, variant="core", depth=3, emitidx=False) for u in U] + \
-                [dict(universe=u, variant="extras", depth=10, simulate=1500, emitidx=False) for u in U]
-        hs, keys, modes = (0, 1, 2, 3), ("plain", "hostile"), ("compiled", "pure")
+        plans = [dict(universe=u, variant="core", depth=3, emitidx=False) for u in U] + [dict(universe="U4", variant="core", depth=5, emitidx=False)] + \
+                [dict(universe=u, variant="extras", depth=12, simulate=150, emitidx=False, fan_keep=0.03) for u in U]
+        hs, keys, modes = (0, 1), ("plain", "hostile"), ("compiled", "pure")
     v = me.run("C01", "model_checking",
                   "every transition TLC generates for Manager.tla (universes U1-U3, exhaustive to the stated depth plus -simulate fans) is replayed on a "
                   "fresh real Manager; after each step container contents, definitions, knob state must equal the spec successor. "
@@ -48,9 +48,9 @@ def c02():
         hs = tuple(range(8))
         modes = ("compiled",)
     else:
-        plans = [dict(universe=u, variant="core", depth=3, emitidx=False) for u in U] + \
-                [dict(universe=u, variant="extras", depth=10, simulate=800, emitidx=False) for u in U]
-        hs = tuple(range(32))
+        plans = [dict(universe=u, variant="core", depth=3, emitidx=False) for u in U] + [dict(universe="U4", variant="faults", depth=4, emitidx=False)] + \
+                [dict(universe=u, variant="extras", depth=12, simulate=100, emitidx=False, fan_keep=0.03) for u in U]
+        hs = tuple(range(16))
         modes = ("compiled", "pure")
     v = me.run("C02", "model_checking",
                   "as C01, observing the ordered list of Task.run calls of each assignment: it must be a permutation of the spec's Triggered set "
@@ -69,8 +69,8 @@ def c03():
                 [dict(universe=u, variant="extras", depth=7, simulate=25, fan_keep=0.1) for u in U]
         hs, modes = (0,), ("compiled",)
     else:
-        plans = [dict(universe=u, variant="extras", depth=3) for u in ("U1", "U2")] + [dict(universe="U3", variant="extras", depth=3)] + \
-                [dict(universe=u, variant="extras", depth=10, simulate=600) for u in U]
+        plans = [dict(universe=u, variant="extras", depth=3) for u in U] + [dict(universe="U4", variant="extras", depth=5)] + \
+                [dict(universe=u, variant="extras", depth=12, simulate=100, fan_keep=0.03) for u in U]
         hs, modes = (0, 1), ("compiled", "pure")
     v = me.run("C03", "model_checking",
                   "replay of every transition incl. unregister / redefinition / register / refresh / cleanup / verify / clone-adoption; after each step the "
@@ -90,8 +90,8 @@ def c17():
                 [dict(universe=u, variant="extras", depth=7, simulate=25, fan_keep=0.1) for u in U]
         modes = ("compiled",)
     else:
-        plans = [dict(universe=u, variant="extras", depth=3) for u in U] + \
-                [dict(universe=u, variant="extras", depth=10, simulate=800) for u in U]
+        plans = [dict(universe=u, variant="extras", depth=3) for u in U] + [dict(universe="U4", variant="extras", depth=4)] + \
+                [dict(universe=u, variant="extras", depth=12, simulate=100, fan_keep=0.03) for u in U]
         modes = ("compiled", "pure")
     return me.run("C17", "model_checking",
                   "replay with Freeze/Unfreeze in the action menu: while frozen every definitional call must raise ValueError and leave the projection unchanged, "
@@ -109,8 +109,8 @@ def c18():
                 [dict(universe=u, variant="faults", depth=5, simulate=12, emitidx=False, fan_keep=0.15) for u in U]
         modes = ("compiled",)
     else:
-        plans = [dict(universe=u, variant="faults", depth=3, emitidx=False) for u in U] + \
-                [dict(universe=u, variant="all", depth=8, simulate=300, emitidx=False) for u in U]
+        plans = [dict(universe=u, variant="faults", depth=2, emitidx=False) for u in U] + [dict(universe="U4", variant="faults", depth=4, emitidx=False)] + \
+                [dict(universe=u, variant="all", depth=9, simulate=100, emitidx=False, fan_keep=0.05) for u in U]
         modes = ("compiled", "pure")
     return me.run("C18", "fault_enumeration",
                   "for every reachable update of Manager.tla and every position k (0 = the write of the assigned location, k = first write of the k-th scheduled task) "
@@ -152,8 +152,8 @@ def c12():
                 [dict(universe=u, variant="xfer_extras", depth=7, simulate=25, emitidx=False, fan_keep=0.1) for u in U]
         modes, hs = ("compiled",), (0,)
     else:
-        plans = [dict(universe=u, variant="xfer", depth=3) for u in U] + [dict(universe="U4", variant="xfer_extras", depth=5)] + \
-                [dict(universe=u, variant="xfer_extras", depth=10, simulate=600, emitidx=False) for u in U]
+        plans = [dict(universe=u, variant="xfer", depth=2) for u in U] + [dict(universe="U4", variant="xfer_extras", depth=5)] + \
+                [dict(universe=u, variant="xfer_extras", depth=12, simulate=100, emitidx=False, fan_keep=0.03) for u in U]
         modes, hs = ("compiled", "pure"), (0, 1)
     from . import expr_engine as ee
     v = me.run("C12", "model_checking",
@@ -176,8 +176,8 @@ def c13():
                 [dict(universe=u, variant="xfer", depth=6, simulate=25, emitidx=False, fan_keep=0.15) for u in U]
         modes, hs = ("compiled",), (0, 1)
     else:
-        plans = [dict(universe=u, variant="xfer", depth=3, emitidx=False) for u in U] + \
-                [dict(universe=u, variant="xfer", depth=9, simulate=600, emitidx=False) for u in U]
+        plans = [dict(universe=u, variant="xfer", depth=2, emitidx=False) for u in U] + [dict(universe="U4", variant="xfer", depth=5, emitidx=False)] + \
+                [dict(universe=u, variant="xfer", depth=10, simulate=100, emitidx=False, fan_keep=0.05) for u in U]
         modes, hs = ("compiled", "pure"), (0, 1, 2, 3)
     return me.run("C13", "translation_validation",
                   "per-program validation of the code mk_fun/gen_fun emit: at every reachable state of Manager.tla and for every 1- and 2-element tuple of "
@@ -194,8 +194,8 @@ def c11():
                 [dict(universe=u, variant="xfer_extras", depth=7, simulate=25, emitidx=False, fan_keep=0.1) for u in U]
         modes, hs, keys = ("compiled",), (0,), ("plain", "hostile")
     else:
-        plans = [dict(universe=u, variant="xfer", depth=3, emitidx=False) for u in U] + \
-                [dict(universe=u, variant="xfer_extras", depth=10, simulate=600, emitidx=False) for u in U]
+        plans = [dict(universe=u, variant="xfer", depth=2, emitidx=False) for u in U] + [dict(universe="U4", variant="xfer", depth=5, emitidx=False)] + \
+                [dict(universe=u, variant="xfer_extras", depth=12, simulate=100, emitidx=False, fan_keep=0.03) for u in U]
         modes, hs, keys = ("compiled", "pure"), (0, 1), ("plain", "hostile")
     from . import expr_engine as ee
     v = me.run("C11", "model_checking",
@@ -219,9 +219,9 @@ def c20():
                 [dict(universe=u, variant="xfer_extras", depth=7, simulate=25, emitidx=False, fan_keep=0.1) for u in U]
         hs, keys = (0, 1, 2), ("plain",)
     else:
-        plans = [dict(universe=u, variant="xfer_extras", depth=3, emitidx=False) for u in U] + \
-                [dict(universe=u, variant="xfer_extras", depth=10, simulate=800, emitidx=False) for u in U]
-        hs, keys = tuple(range(16)), ("plain", "hostile")
+        plans = [dict(universe=u, variant="xfer_extras", depth=2, emitidx=False) for u in U] + [dict(universe="U4", variant="xfer_extras", depth=4, emitidx=False)] + \
+                [dict(universe=u, variant="xfer_extras", depth=12, simulate=100, emitidx=False, fan_keep=0.03) for u in U]
+        hs, keys = tuple(range(8)), ("plain", "hostile")
     from . import expr_engine as ee
     v = me.run("C20", "exploration",
                   "the same TLC-generated programs (every transition of Manager.tla to the stated depth plus simulated behaviours, incl. unregister / freeze / refresh / "
@@ -245,10 +245,10 @@ def _expr_plans(q):
         return [dict(depth=3, size=1, mgr=1, ops="OpsAll", lits="LitsAll", envs="EnvsAll", full=True),
                 dict(depth=3, size=2, mgr=0, ops="OpsFew", lits="LitsTwo", envs="EnvsTwo", full=False),
                 dict(depth=6, size=3, mgr=2, ops="OpsAll", lits="LitsAll", envs="EnvsAll", full=True, simulate=60, fan_keep=0.03)]
-    return [dict(depth=4, size=1, mgr=2, ops="OpsAll", lits="LitsAll", envs="EnvsAll", full=True),
-            dict(depth=3, size=2, mgr=0, ops="OpsAll", lits="LitsFew", envs="EnvsAll", full=True),
-            dict(depth=4, size=3, mgr=0, ops="OpsFew", lits="LitsTwo", envs="EnvsOne", full=False),
-            dict(depth=8, size=4, mgr=3, ops="OpsAll", lits="LitsAll", envs="EnvsAll", full=True, simulate=3000, fan_keep=0.02)]
+    return [dict(depth=3, size=1, mgr=1, ops="OpsAll", lits="LitsAll", envs="EnvsAll", full=True),
+            dict(depth=3, size=2, mgr=0, ops="OpsArith", lits="LitsFew", envs="EnvsTwo", full=False),
+            dict(depth=4, size=1, mgr=2, ops="OpsFew", lits="LitsFew", envs="EnvsOne", full=False),
+            dict(depth=8, size=4, mgr=3, ops="OpsAll", lits="LitsAll", envs="EnvsAll", full=True, simulate=300, fan_keep=0.01)]
 
 
 @prop("C04")
